@@ -130,4 +130,85 @@ lemma div_abs_inf (x : Nat) (hx : isFiniteBits f x = true) : FP.div f (FP.abs f 
   rw [d, decode_inf f h]
   simp [Fmt.zeroBits]
 
+/-! ### a zero operand -/
+
+include h in
+lemma isNaN_zero : isNaNBits f 0 = false := by
+  have := decode_zeroBits f h false
+  simp only [Fmt.zeroBits, Bool.false_eq_true, if_false] at this
+  unfold isNaNBits; rw [this]; rfl
+
+include h in
+lemma ord_zero : ord f 0 = 0 := by
+  have hs : (0 : Nat) < f.signBit := by
+    have := infBits_lt_sign f h; omega
+  unfold ord
+  rw [Ulp.sign_of_lt f _ hs, Ulp.magBits_of_lt f _ hs]; simp
+
+include h in
+lemma lt_zero_abs (x : Nat) (hn : isNaNBits f x = false) (h0 : FP.abs f x ≠ 0) : FP.lt f 0 (FP.abs f x) = true := by
+  unfold FP.lt
+  rw [isNaN_abs f h x, hn, isNaN_zero f h, ord_abs f h, ord_zero f h]
+  simp only [Bool.not_false, Bool.true_and, decide_eq_true_eq]
+  have : 0 < FP.abs f x := Nat.pos_of_ne_zero h0
+  exact_mod_cast this
+
+include h in
+lemma lt_abs_zero (x : Nat) (hn : isNaNBits f x = false) : FP.lt f (FP.abs f x) 0 = false := by
+  unfold FP.lt
+  rw [isNaN_abs f h x, hn, isNaN_zero f h, ord_abs f h, ord_zero f h]
+  simp
+
+include h in
+lemma eq_zero_abs (x : Nat) (hn : isNaNBits f x = false) (h0 : FP.abs f x ≠ 0) : FP.eq f 0 (FP.abs f x) = false := by
+  unfold FP.eq
+  rw [isNaN_abs f h x, hn, isNaN_zero f h, ord_abs f h, ord_zero f h]
+  simp only [Bool.not_false, Bool.true_and, decide_eq_false_iff_not]
+  intro hc; exact h0 (by exact_mod_cast hc.symm)
+
+include h in
+/-- +0 / |x| = +0 for every non-NaN x with |x| ≠ 0 (finite or infinite) -/
+lemma div_zero_abs (x : Nat) (hn : isNaNBits f x = false) (h0 : FP.abs f x ≠ 0) : FP.div f 0 (FP.abs f x) = 0 := by
+  have hz := decode_zeroBits f h false
+  simp only [Fmt.zeroBits, Bool.false_eq_true, if_false] at hz
+  have hl := abs_lt_sign f h x
+  have hsgn := Ulp.sign_of_lt f _ hl
+  cases hx : isFiniteBits f x
+  · rw [abs_inf_eq f h x hn hx]
+    unfold FP.div; rw [hz, decode_inf f h]; simp [Fmt.zeroBits]
+  · have hfa : isFiniteBits f (FP.abs f x) = true := by
+      have := Ulp.finite_abs f ⟨h.hp, h.hew⟩ x
+      unfold Ulp.absBits at this
+      rw [abs_eq_mag f, this]; exact hx
+    obtain ⟨s, m, e, d⟩ := finite_decode f _ hfa
+    have hm : m ≠ 0 := by
+      intro hm0
+      -- a finite pattern below the sign bit with significand 0 is the pattern 0
+      apply h0
+      have hw : Ulp.WF f := ⟨h.hp, h.hew⟩
+      have hF := Ulp.F_pos f
+      unfold decode at d
+      simp only at d
+      by_cases hE : (fields f (FP.abs f x)).e = f.expMax
+      · simp only [hE, if_true] at d
+        split_ifs at d
+      · by_cases hE0 : (fields f (FP.abs f x)).e = 0
+        · have h0e : ¬ ((0 : Nat) = f.expMax) := by rw [← hE0]; exact hE
+          simp only [hE0, h0e, if_false, if_true, V.fin.injEq] at d
+          have hmf : (fields f (FP.abs f x)).m = 0 := by rw [d.2.1]; exact hm0
+          have e1 : magBits f (FP.abs f x) / 2 ^ f.fracBits = 0 := by rw [← Ulp.fields_e f hw]; exact hE0
+          have hfm : (fields f (FP.abs f x)).m = FP.abs f x % 2 ^ f.fracBits := by unfold fields; rfl
+          rw [Ulp.magBits_of_lt f _ hl] at e1
+          have := Nat.div_add_mod (FP.abs f x) (2 ^ f.fracBits)
+          rw [e1, ← hfm, hmf] at this; omega
+        · simp only [hE, hE0, if_false, V.fin.injEq] at d
+          have := d.2.1; omega
+    have hs : s = false := by
+      unfold decode at d
+      simp only at d
+      split_ifs at d <;> simp_all
+    subst hs
+    unfold FP.div; rw [hz, d]
+    simp [hm, Fmt.zeroBits]
+
 end FAVerif.SoftInf
